@@ -401,24 +401,26 @@ def rsh_divrem_hensel_qr_1_1 (x : List Nat) (d s cin : Nat) : List Nat × Nat :=
       let (q, h, c) := henselStep d m x0 cin 0
       hensel11Go d m s xs h c (q >>> s)
 
+/-- two limbs at a time, rsh_divrem_hensel_qr_1_2.c:74-98 without the output shifting:
+    returns (ql, qh, new h, new c). -/
+def henselPair (d ml mh xl xh h c : Nat) : Nat × Nat × Nat × Nat :=
+  let t := (h + c) % B
+  let c := if xh == 0 && t > xl then 1 else 0
+  let x := sub_ddmmss xh xl 0 t                         -- (xh, xl)
+  let p := umul_ppmm x.2 ml                             -- (qh, ql)
+  let qh := ((p.1 + (x.1 * ml) % B) % B + (x.2 * mh) % B) % B
+  let hh := umul_ppmm qh d                              -- (h, h1)
+  let h := if hh.2 > x.1 then (hh.1 + 1) % B else hh.1
+  (p.2, qh, h, c)
+
 def hensel12Go (d ml mh s : Nat) : List Nat → Nat → Nat → Nat → List Nat × Nat
   | xl :: xh :: xs, h, c, qo =>                              -- rsh_divrem_hensel_qr_1_2.c:72-99
-      let t := (h + c) % B
-      let c := if xh == 0 && t > xl then 1 else 0
-      let (xh, xl) := sub_ddmmss xh xl 0 t
-      let (qh, ql) := umul_ppmm xl ml
-      let qh := ((qh + (xh * ml) % B) % B + (xl * mh) % B) % B
-      let qo1 := henselOr qo ql s
-      let qo := ql >>> s
-      let qo2 := henselOr qo qh s
-      let qo := qh >>> s
-      let (h, h1) := umul_ppmm qh d
-      let h := if h1 > xh then (h + 1) % B else h
-      let (rest, ret) := hensel12Go d ml mh s xs h c qo
-      (qo1 :: qo2 :: rest, ret)
+      let p := henselPair d ml mh xl xh h c
+      let r := hensel12Go d ml mh s xs p.2.2.1 p.2.2.2 (p.2.1 >>> s)
+      (henselOr qo p.1 s :: henselOr (p.1 >>> s) p.2.1 s :: r.1, r.2)
   | [x], h, c, qo =>                                         -- :101-122
-      let (q, h, c) := henselStep d ml x h c
-      ([henselOr qo q s, q >>> s], (h + c) % B)
+      let st := henselStep d ml x h c
+      ([henselOr qo st.1 s, st.1 >>> s], (st.2.1 + st.2.2) % B)
   | [], h, c, qo => ([qo], (h + c) % B)
 
 /-- mpn_rsh_divrem_hensel_qr_1_2 (mpn/generic/rsh_divrem_hensel_qr_1_2.c:31-127); n ≥ 2. -/
